@@ -3377,6 +3377,17 @@ impl SctpInner {
             return Err(anyhow::anyhow!("sctp association is not established yet"));
         }
 
+        // RFC 8832 lets the opener send right after DATA_CHANNEL_OPEN — but the OPEN has to
+        // be ahead of the data: if it is not queued yet (the channel was just created and
+        // the task sending its OPEN has not run), queue it now.
+        if !is_dcep
+            && let Some(dc) = &dc_opt
+            && !dc.negotiated
+            && dc.state.load(Ordering::SeqCst) == DataChannelState::Connecting as usize
+        {
+            Box::pin(self.send_dcep_open(dc)).await?;
+        }
+
         let (_guard, ssn) = if let Some(dc) = &dc_opt {
             let guard = dc.send_lock.lock().await;
             ordered = if is_dcep { false } else { dc.ordered };
@@ -3897,6 +3908,13 @@ impl SctpInner {
     }
 
     pub async fn send_dcep_open(&self, dc: &DataChannel) -> Result<()> {
+        // Once the OPEN is in the queue of an established association it is delivered
+        // reliably: no need to queue another one. (The mark is set only after queuing, so
+        // a sender that finds it set can rely on the OPEN being ahead of its data.)
+        let established = *self.state.lock() == SctpState::Connected;
+        if established && dc.dcep_open_queued.load(Ordering::SeqCst) {
+            return Ok(());
+        }
         // DCEP carries label and protocol lengths in 16 bits: a longer string
         // would be announced with a truncated length and arrive as another one.
         if dc.label.len() > u16::MAX as usize || dc.protocol.len() > u16::MAX as usize {
@@ -3940,8 +3958,13 @@ impl SctpInner {
         };
 
         let payload = open.marshal();
-        self.send_data_raw(dc.id, DATA_CHANNEL_PPID_DCEP, &payload)
-            .await
+        let queued = self
+            .send_data_raw(dc.id, DATA_CHANNEL_PPID_DCEP, &payload)
+            .await;
+        if queued.is_ok() && established {
+            dc.dcep_open_queued.store(true, Ordering::SeqCst);
+        }
+        queued
     }
 
     pub async fn send_dcep_ack(&self, channel_id: u16) -> Result<()> {
